@@ -48,10 +48,8 @@ def model_update(
     act: int,
     next_obs: int,
 ):
-    model.transition = model.transition.at[obs, act, next_obs].set(
-        counter.transition_counter[obs][act][next_obs]
-        / sum(counter.transition_counter[obs][act])
-    )
+    counts = np.asarray(counter.transition_counter[obs][act], dtype=float)
+    model.transition = model.transition.at[obs, act].set(counts / counts.sum())
     model.reward = model.reward.at[obs, act, next_obs].set(
         np.mean(counter.reward_history[obs][act][next_obs])
     )
